@@ -20,7 +20,8 @@ SPEC = {
     "rule": "limits: random admission / re-send / wait / GC sequences on real store.Alerts.WithPerAlertLimit (real limit.Bucket heaps) and, in a quarter "
             "of the cases, real mem.Alerts (Put, own GC ticker, alerts_limited_total) under synctest virtual time; limit 0..4, two alert names, "
             "7 label sets, end times on a minute grid around `now` (ends == now frequent); non-trivial = hits a tagged branch "
-            "(set:resend/evict-expired/refused/resend-expired, gc:bucket-dropped, gc:last-slot-expired-but-live-item, mem:gc-tick)",
+            "(set:resend/evict-expired/refused/resend-expired, gc:bucket-dropped, gc:last-slot-expired-but-live-item, mem:gc-tick); sem: the real mux of API.Register under synctest, 1-4 slots, blocked / quick GETs and POSTs "
+            "on the router mounted at / AND quick GETs on the API's own mount point (/api/v2/silences): one limit for all GETs of the mux",
     "assumptions": [
         "container/heap contract (slot 0 is a minimum after Push/Pop/Fix): assumed by reject_only_when_full_unexpired; the array-level model's root is checked to be a minimum at run time (DIFF heap-contract)",
         "array-level model vs abstract map model: agreement of verdicts and contents is checked at run time on every step (DIFF refine.*), not proved",
